@@ -324,7 +324,7 @@ def main():
                  "property covers; exit 2 = machinery failure (never a verdict). A line MODEL-DRIFT (C17) reports "
                  "executions that the implementation-shaped model does not explain although the property-level "
                  "specification accepts them: it never changes the exit code. known_findings.json lists recorded "
-                 "findings and fixed defects. Extension checks X01..X06 (./vf check X0n) grow the specification "
+                 "findings and fixed defects. Extension checks X01..X07 (./vf check X0n) grow the specification "
                  "beyond the listed properties and are not registered here. Self-tests: harness/selftest.py (code "
                  "mutants and benign refactorings in mutants/), harness/specmut.py (specification mutants), "
                  "harness/reseed.py (stored seeded regressions in seeded/).",
